@@ -114,6 +114,8 @@ def path(c, job):
         c.reach("preexisting-value")
         pv = _value(c, typ, "pre")
         ntcore.STORE.values[keys[(names[0], "a")]] = pv
+        # the topic may carry any properties a dashboard / the persistent file gave it
+        ntcore.STORE.props[keys[(names[0], "a")]] = dict(persistent=c.boolean("pre_persistent"), retained=c.boolean("pre_retained"))
         model[keys[(names[0], "a")]] = pv
         had = True
     else:
@@ -160,7 +162,7 @@ def path(c, job):
         elif op == "nt-write":
             v = _value(c, typ, f"n{i}")
             # an independent NetworkTables client publishing on the documented key
-            ntcore.NetworkTableInstance.getDefault().getTable("/").getEntry(k.lstrip("/")).set(v)
+            ntcore.NetworkTableInstance.getDefault().getEntry(k).set(v)
             model[k] = v
             c.reach("nt-write")
         # after every operation every attribute of every instance reads its own latest value
@@ -196,6 +198,13 @@ class C09(Spec):
 
     def reach_required(self, tier):
         return ["type-table", "preexisting-value", "existing-preserved", "existing-overwritten", "py-write", "nt-write"]
+
+    def extra(self, tier, seed):
+        from real.run import nt_contract
+
+        r = nt_contract()
+        return dict(obligations=0, discharged=0, validated=r["validated"], problems=r["problems"], samples=r.get("samples", []),
+                    info=dict(nt_stub_contract_observations_matching_real_ntcore=r["validated"]))
 
     def path_fn(self, c, job):
         path(c, job)
